@@ -91,15 +91,16 @@ type rangeInfo struct {
 }
 
 type VC struct {
-	w        *World
-	cs       *Contracts
-	ms       *ModSets
-	fn       *ssa.Function
-	spec     *FuncSpec
-	key      string
-	sendOrd  int             // ordinal of channel sends (site anchors 'at send chan#n')
-	covered  map[string]bool // reachability covers already emitted (position|reach)
-	closePts [][3]string     // (allocTop, reach, epoch) of the heap-closure points emitted so far (closeAll)
+	w            *World
+	cs           *Contracts
+	ms           *ModSets
+	fn           *ssa.Function
+	spec         *FuncSpec
+	key          string
+	sendOrd      int                 // ordinal of channel sends (site anchors 'at send chan#n')
+	inlineAllocs map[*ssa.Alloc]bool // cells allocated while executing an inlined callee
+	covered      map[string]bool     // reachability covers already emitted (position|reach)
+	closePts     [][3]string         // (allocTop, reach, epoch) of the heap-closure points emitted so far (closeAll)
 
 	cmds   []string
 	decl   map[string]string // symbol -> sort (declared)
